@@ -171,6 +171,8 @@ package astvalidation
 // C04, selections with the same response name are mergeable (spec: FieldsInSetCanMerge / SameResponseShape apply to
 // every field, meta fields included): before a field is accepted the fields already recorded under its response
 // name and path are consulted.
+//@ decl stable fieldSelectionMergingVisitor.operation by fieldSelectionMergingVisitor.EnterDocument
+//@ decl stable fieldSelectionMergingVisitor.definition by fieldSelectionMergingVisitor.EnterDocument
 //@ func fieldSelectionMergingVisitor.EnterField
 //@   requires f != nil && f.operation != nil && f.definition != nil && f.Walker != nil
 //@   ghost var g_consulted bool = false
